@@ -1116,6 +1116,12 @@ fn builders_fam(c: &mut Case) {
     scverif::builders::case(c, "C10")
 }
 
+/// the uniform api traits (Predictor / SupervisedEstimator / UnsupervisedEstimator / Transformer) behave
+/// exactly like the inherent methods
+fn api_paths_fam(c: &mut Case) {
+    scverif::apipaths::case(c, "C10")
+}
+
 fn main() {
     let f4 = factorial(4);
     let f5 = factorial(5);
@@ -1133,6 +1139,7 @@ fn main() {
             "kernel closed forms: |K - ref| <= 1e-12 * first-order error scale of the closed form (Σ|a_i b_i| for the inner product propagated through the outer function)",
         ],
         families: vec![
+            Family::new("api_paths", 300, 3000, api_paths_fam),
             Family::new("builders", 300, 3000, builders_fam),
             Family::new("svc", 8000, 300000, svc),
             Family::new("svc_unforced", 1000, 30000, svc_unforced),
